@@ -22,7 +22,8 @@ def run(c, a):
         c.trace("FuncTrace", out, nshards=1, dedupe=False)
         return
     thorough = c.tier == "thorough"
-    jobs = [("FuncGen", {"VFAM": "one", "VTIER": c.tier, "VOUT": c.path("fvec-one.ndjson")})]
+    nsh = 8 if c.tier == "thorough" else 2
+    jobs = [("FuncGen", {"VFAM": "one", "VTIER": c.tier, "VSHARDI": k, "VSHARDN": nsh, "VOUT": c.path("fvec-one%d.ndjson" % k)}) for k in range(nsh)]
     nsamp = 8 if thorough else 4
     for i in range(nsamp):
         jobs.append(("FuncGen", {"VFAM": "sample", "VN": 6000 if thorough else 2500, "VTIER": c.tier, "VOUT": c.path("fvec-s%d.ndjson" % i), "VSEEDX": c.seed * 100 + i}))
